@@ -20,7 +20,7 @@ RULE = ('documents from a structure-aware generator (paragraphs of unique word t
         'named in a warning; plaintext is reproduced exactly. Distinct by document; non-trivial: >=3 blocks or a field.')
 ASSUME = ['well-formed means: as the serializers in vf/gen/docgen.py write it (each rule cites the markup manual)',
           'fields that pydoctor moves by design (@type into the parameter row, @rtype into Returns) are looked for there']
-DECIDING = {'documents': 1500, 'body_tokens_compared': 20000, 'verbatim_blocks_compared': 500, 'fields_compared': 1000, 'plaintext_compared': 100, 'documented_variables_checked': 500}
+DECIDING = {'documents': 1500, 'body_tokens_compared': 20000, 'verbatim_blocks_compared': 500, 'fields_compared': 1000, 'plaintext_compared': 100, 'documented_variables_checked': 500, 'argument_documents': 200}
 CPU_S = 900
 FORMATS = ['epytext', 'restructuredtext', 'google', 'numpy']
 TOK = re.compile(r'w\d{6}')
@@ -30,7 +30,8 @@ PER = 25
 def cases(tier: str, seed: int) -> List[Dict[str, Any]]:
     n = 1500 if tier == 'quick' else 40000
     no = 400 if tier == 'quick' else 8000
-    return [{'seed': seed, 'k': k, 'n': PER} for k in range(0, n, PER)] + [{'part': 'O', 'seed': seed, 'k': k, 'n': 50} for k in range(0, no, 50)]
+    return [{'seed': seed, 'k': k, 'n': PER} for k in range(0, n, PER)] + [{'part': 'O', 'seed': seed, 'k': k, 'n': 50} for k in range(0, no, 50)] + \
+        [{'part': 'A', 'seed': seed, 'k': k, 'n': 50} for k in range(0, no, 50)]
 
 
 def worker_init() -> None:
@@ -284,8 +285,50 @@ def _run_owner(res: core.Res, case: Dict[str, Any]) -> None:
     res.sample({'owner_docstring': doc})
 
 
+# ---- field arguments of several words, definition-list terms with several classifiers ------------------------------------------
+# Nothing of what is written there may vanish without a message: every token is shown, or the docstring is reported.
+
+def _run_args(res: core.Res, case: Dict[str, Any]) -> None:
+    from vf.mon import msgs
+    for j in range(case['n']):
+        r = core.rng('C09', 'args', case['seed'], case['k'] + j)
+        n0 = r.randrange(100000, 800000)
+        tok = iter(f'w{n0 + i:06d}' for i in range(60))
+        fmt = r.choice(['epytext', 'restructuredtext'])
+        lines = [f'Summary {next(tok)}.', '']
+        if fmt == 'epytext':
+            for _ in range(r.randint(1, 3)):
+                tag = r.choice(['raise', 'warns', 'raises', 'except'])
+                arg = ' '.join([r.choice(['ValueError', 'KeyError', next(tok)])] + [r.choice(['or', 'since', 'and', next(tok)]) for _ in range(r.randint(1, 3))] + [next(tok)])
+                lines.append(f'@{tag} {arg}: {next(tok)} {next(tok)}')
+        else:
+            lines.append(r.choice([':Parameters:', ':Keywords:', ':Exceptions:']))
+            for name in r.sample(['a', 'b', 'args', 'kw'], r.randint(1, 3)):
+                cls_ = ' : '.join(next(tok) for _ in range(r.randint(1, 3)))
+                lines.append(f'    {name} : {cls_}')
+                lines.append(f'        {next(tok)} {next(tok)}')
+        doc = '\n'.join(lines) + '\n'
+        try:
+            system, html = _render(doc, fmt)
+        except Exception as e:  # noqa: BLE001 -- C08's business
+            res.c('args_render_raised')
+            continue
+        res.c('argument_documents')
+        res.c('evaluations')
+        res.distinct(f'args:{case["seed"]}:{case["k"] + j}')
+        shown = set(TOK.findall(html))
+        missing = [t for t in TOK.findall(doc) if t not in shown]
+        reported = [m[1] for m in msgs.messages(system) if m[2] < 0]
+        if missing and not reported:
+            res.v(f'C09:{fmt}:token-lost-in-field-argument', f'tokens {missing} of a field argument / term do not appear in the rendered docstring and nothing is reported', docformat=fmt, docstring=doc, html=html[:1500])
+    res.sample({'argument_docstring': doc})
+
+
 def run_case(case: Dict[str, Any]) -> core.Res:
     res = core.Res()
+    if case.get('part') == 'A':
+        _run_args(res, case)
+        return res
     if case.get('part') == 'O':
         _run_owner(res, case)
         return res
